@@ -28,7 +28,9 @@ def build(repo, findings):
     u.add(va.item(r'^pub enum ShellValueLiteral ', 'ShellValueLiteral').r1(keep_derive=()))
     u.prelude('assign/tail_spec.rs')
     fn = 'assignment_tail'
-    f = ip.slice('apply_assignment', r'^\s*let in_innermost_scope = ', None,
+    # the tail starts at the statement that asks whether the innermost scope holds the name; without such a statement it starts at the lookup
+    start_re = r'^\s*let in_innermost_scope = ' if ip.has(r'^\s*let in_innermost_scope = ') else r'^\s*if let Some\(\(existing_value_scope, existing_value\)\) =\s*$'
+    f = ip.slice('apply_assignment', start_re, None,
                  'fn assignment_tail(assignment: &ast::Assignment, shell: &mut Shell, variable_name: &String, array_index: Option<String>, new_value: ShellValueLiteral, mut export: bool, export_variables_on_modification: bool, required_scope: Option<EnvironmentScope>, creation_scope: EnvironmentScope) -> Result<(), error::Error>', fn)
     f.r1().r3()
     f.resub(r'\bshell\.options\(\)\.', 'shell.options.', 'R22', 'accessor inlined', count=None)
